@@ -11,7 +11,7 @@ from . import refmath as R
 
 BO = dict(ADD=0, AVERAGE_POOL_2D=1, CONCATENATION=2, CONV_2D=3, DEPTHWISE_CONV_2D=4, FULLY_CONNECTED=9, LOGISTIC=14, MAX_POOL_2D=17, MUL=18, RELU=19, RELU_N1_TO_1=20, RELU6=21,
           RESHAPE=22, RESIZE_BILINEAR=23, SOFTMAX=25, TANH=28, CUSTOM=32, PAD=34, TRANSPOSE=39, MEAN=40, SUB=41, SQUEEZE=43, STRIDED_SLICE=45, SPLIT=49, MAXIMUM=55, MINIMUM=57,
-          NEG=59, SLICE=65, EXPAND_DIMS=70, RESIZE_NEAREST_NEIGHBOR=97, LEAKY_RELU=98, ABS=101, REVERSE_V2=105, QUANTIZE=114, HARD_SWISH=117, FLOOR_DIV=90)
+          NEG=59, SLICE=65, TRANSPOSE_CONV=67, EXPAND_DIMS=70, RESIZE_NEAREST_NEIGHBOR=97, LEAKY_RELU=98, ABS=101, REVERSE_V2=105, QUANTIZE=114, HARD_SWISH=117, FLOOR_DIV=90)
 NAME = {v: k for k, v in BO.items()}
 RANGE = {"int8": (-128, 127), "uint8": (0, 255), "int16": (-32768, 32767), "int32": (-(2 ** 31), 2 ** 31 - 1)}
 APPROX = {"LOGISTIC", "TANH", "LEAKY_RELU", "HARD_SWISH", "SOFTMAX", "MEAN", "RESIZE_BILINEAR", "RESIZE_NEAREST_NEIGHBOR", "AVERAGE_POOL_2D"}
@@ -225,6 +225,52 @@ class Interp:
                 acc += patch * wz[ky, kx, :]
         acc += bias.reshape(1, 1, 1, oc)
         return self._requant_conv(acc, mult, bdt, dt, zo, odt, act, so)
+
+    def op_TRANSPOSE_CONV(self, op):
+        """reference_integer_ops::TransposeConv: scatter-accumulate, then bias and per-channel requantisation (no fused activation in this schema)"""
+        o = op.options
+        padding, sw_, sh_ = o.scalar(0, "b", 0), o.scalar(1, "i", 0), o.scalar(2, "i", 0)
+        sx, zx, dt = self.q(op.inputs[2])
+        sw, zw, wdt = self.q(op.inputs[1])
+        so, zo, odt = self.q(op.outputs[0])
+        if dt == "int16":
+            raise Unsupported("int16 transpose convolution")
+        mult = []
+        for c in range(len(sw)):
+            if dt == "uint8":
+                real = float(np.float64(np.float32(np.float32(sx[0]) * np.float32(sw[c]))) / np.float64(np.float32(so[0])))
+            else:
+                real = float(np.float64(np.float32(sx[0])) * np.float64(np.float32(sw[c])) / np.float64(np.float32(so[0])))
+            mult.append(R.quantize_multiplier(real))
+        x = self.get(op.inputs[2])
+        w = self.const(op.inputs[1])
+        if w is None:
+            raise Unsupported("dynamic weights")
+        oc, kh, kw, ic = w.shape
+        n, h, wd, _ = x.shape
+        oh, ow = self.sg.tensors[op.outputs[0]].shape[1:3]
+        if len(op.inputs) > 3 and op.inputs[3] >= 0:
+            bias = self.const(op.inputs[3]).reshape(-1)
+        else:
+            bias = np.zeros(oc, dtype=np.int64)
+
+        def pad_of(out_sz, k, stride):
+            fwd = -(-out_sz // stride) if padding == 0 else (out_sz + stride - k) // stride
+            return max(0, (fwd - 1) * stride + k - out_sz) // 2
+
+        pt, pl = pad_of(oh, kh, sh_), pad_of(ow, kw, sw_)
+        wz = w - np.array(zw if len(zw) == oc else [zw[0]] * oc, dtype=np.int64).reshape(oc, 1, 1, 1)
+        xz = x - zx[0]
+        big = np.zeros((n, (h - 1) * sh_ + kh + pt, (wd - 1) * sw_ + kw + pl, oc), dtype=np.int64)  # origin shifted by (pt, pl) is cropped below
+        for ky in range(kh):
+            for kx in range(kw):
+                contrib = np.tensordot(xz, wz[:, ky, kx, :], axes=([3], [1]))  # n,h,w,oc
+                big[:, ky : ky + (h - 1) * sh_ + 1 : sh_, kx : kx + (wd - 1) * sw_ + 1 : sw_, :] += contrib
+        acc = np.zeros((n, oh, ow, oc), dtype=np.int64)
+        src = big[:, pt : pt + oh, pl : pl + ow, :]
+        acc[:, : src.shape[1], : src.shape[2], :] = src
+        acc += bias.reshape(1, 1, 1, oc)
+        return self._requant_conv(acc, mult, "int32", dt, zo[0], odt, 0, so[0])
 
     def op_FULLY_CONNECTED(self, op):
         o = op.options
